@@ -1,10 +1,11 @@
 #!/bin/sh
 # run every registered check of a tier in sequence; prints one summary line per property
 TIER="${1:-quick}"
+V=$(cd "$(dirname "$0")" && pwd)
 for p in C01 C02 C03 C04 C05 C06 C07 C08 C09 C10 C11 C12 C13 C14 C15 C16 C17; do
   s=$(date +%s)
-  /verif/check $p $TIER > /tmp/run_all_$p.log 2>&1
+  $V/check $p $TIER > /tmp/run_all_${TIER}_$p.log 2>&1
   rc=$?
   e=$(date +%s)
-  echo "$p rc=$rc $((e-s))s $(grep -c '^VIOLATION' /tmp/run_all_$p.log) violations $(grep -c '^KNOWN-FINDING' /tmp/run_all_$p.log) known $(grep -c '^INCONCLUSIVE' /tmp/run_all_$p.log) inconclusive $(grep -c '^REDUCED-BOUND' /tmp/run_all_$p.log) reduced"
+  echo "$p rc=$rc $((e-s))s $(grep -c '^VIOLATION' /tmp/run_all_${TIER}_$p.log) violations $(grep -c '^KNOWN-FINDING' /tmp/run_all_${TIER}_$p.log) known $(grep -c '^INCONCLUSIVE' /tmp/run_all_${TIER}_$p.log) inconclusive $(grep -c '^REDUCED-BOUND' /tmp/run_all_${TIER}_$p.log) reduced | $(grep "^$p $TIER:" /tmp/run_all_${TIER}_$p.log | cut -c1-160)"
 done
